@@ -92,9 +92,50 @@ def codec_small_inputs_c01():
                 bad_len.append((d1, d2, "append+extend+pop+pop does not restore the message"))
         except BaseException as e:  # noqa
             bad_len.append((d1, d2, "raised " + type(e).__name__))
+    # ... and under cleanup() / replacing the AVP list, with REPEATED AVPs of one kind in the message
+    from bromelia.avps import HostIpAddressAVP
+    for reps, how in itertools.product((1, 2, 3), ("cleanup", "avps=")):
+        nl += 1
+        try:
+            m = B.DiameterMessage(B.DiameterHeader(application_id=0, command_code=257, flags=0x80),
+                                  [HostIpAddressAVP("10.0.0.%d" % (i + 1)) for i in range(reps)] + [UserNameAVP("u")])
+            if how == "cleanup":
+                m.cleanup()
+                m.append(OriginHostAVP("host.example"))
+            else:
+                m.avps = [OriginHostAVP("host.example")]
+            w = m.dump()
+            if int.from_bytes(w[1:4], "big") != len(w) or len(m.avps) != 1:
+                bad_len.append(("%d repeated AVPs" % reps, how, int.from_bytes(w[1:4], "big"), len(w)))
+        except BaseException as e:  # noqa
+            bad_len.append((reps, how, "raised " + type(e).__name__))
+    # Grouped AVPs: data == concatenated member encodings, also with byte-identical members and nesting
+    bad_grp, ng = [], 0
+    from bromelia.avps import FailedAvpAVP
+    kids = [(b"\xff\xff\xff\xfe", b"\x00", None, b"abc"), (b"\xff\xff\xff\xfd", b"\xc0", b"\x00\x00\x28\xaf", b"\x01\x02"),
+            (b"\xff\xff\xff\xfe", b"\x00", None, b"abc")]
+    for combo in [c for k in (1, 2, 3) for c in itertools.product(range(3), repeat=k)]:
+        for nested in (False, True):
+            ng += 1
+            try:
+                members = [_build(*kids[i]) for i in combo]
+                want_data = b"".join(enc_avp(*kids[i]) for i in combo)
+                if nested:
+                    inner = FailedAvpAVP(members)
+                    inner_enc = enc_avp((279).to_bytes(4, "big"), inner.flags, None, want_data)
+                    g = FailedAvpAVP([inner, _build(*kids[combo[0]])])
+                    want_data = inner_enc + enc_avp(*kids[combo[0]])
+                else:
+                    g = FailedAvpAVP(members)
+                want = enc_avp((279).to_bytes(4, "big"), g.flags, None, want_data)
+                if g.dump() != want:
+                    bad_grp.append((combo, nested, g.dump().hex()[:100], want.hex()[:100]))
+            except BaseException as e:  # noqa
+                bad_grp.append((combo, nested, "raised " + type(e).__name__))
     return [("avp-dump-is-the-reference-encoding", not bad_avp, {"checked": n, "failing": bad_avp[:5]}),
             ("message-dump-is-header-then-avps", not bad_msg, {"checked": nm, "failing": bad_msg[:5]}),
-            ("message-length-is-the-size-after-append-extend-pop", not bad_len, {"checked": nl, "failing": bad_len[:5]})]
+            ("message-length-is-the-size-after-append-extend-pop", not bad_len, {"checked": nl, "failing": bad_len[:5]}),
+            ("grouped-data-is-the-concatenated-member-encodings", not bad_grp, {"checked": ng, "failing": bad_grp[:5]})]
 
 
 codec_small_inputs_c01.bounded = "480 generic AVPs (data length <= 13), messages of <= 3 AVPs; native run against the spec encoder"
@@ -127,10 +168,56 @@ def codec_small_inputs_c02():
                 bad.append((stream.hex()[:120], str(objs)[:80]))
                 if len(bad) > 5:
                     break
-    return [("load-is-the-inverse-of-the-reference-encoder", not bad, {"checked": n, "failing": bad[:5]})]
+    # Grouped AVPs of a registered class (Failed-AVP, default flags so the known flag finding does not apply) whose
+    # members are generic AVPs, some byte-identical, one level of nesting: every member survives, in order
+    bad_g, ng = [], 0
+    kids = [(b"\xff\xff\xff\xfe", b"\x00", None, b"abc"), (b"\xff\xff\xff\xfd", b"\xc0", b"\x00\x00\x28\xaf", b"\x01\x02"),
+            (b"\xff\xff\xff\xfe", b"\x00", None, b"abc")]
+    fa = (279).to_bytes(4, "big")
+    for combo in [c for k in (1, 2, 3) for c in itertools.product(range(3), repeat=k)]:
+        for nested in (False, True):
+            ng += 1
+            inner = b"".join(enc_avp(*kids[i]) for i in combo)
+            data = enc_avp(fa, b"\x40", None, inner) + enc_avp(*kids[combo[-1]]) if nested else inner
+            stream = enc_avp(fa, b"\x40", None, data)
+            try:
+                objs = B.DiameterAVP.load(stream)
+                ok = len(objs) == 1 and objs[0].dump() == stream and type(objs[0]).__name__ == "FailedAvpAVP" \
+                    and len(objs[0].avps) == (2 if nested else len(combo))
+            except BaseException as e:  # noqa
+                ok, objs = False, "raised " + type(e).__name__
+            if not ok:
+                bad_g.append((stream.hex()[:160], str(objs)[:80]))
+    # streams of 1..3 MESSAGES with different headers and 0..2 AVPs each: one object per message, in order,
+    # header fields as on the wire, each re-serialising to its own bytes
+    bad_m, nm = [], 0
+    hdrs = [(b"\x01", b"\x80", (316).to_bytes(3, "big"), (16777251).to_bytes(4, "big"), b"\x00\x00\x00\x01", b"\xaa\xbb\xcc\xdd"),
+            (b"\x01", b"\x00", (280).to_bytes(3, "big"), (0).to_bytes(4, "big"), b"\xff\xff\xff\xff", b"\x00\x00\x00\x00"),
+            (b"\x01", b"\x60", (8388620).to_bytes(3, "big"), (16777272).to_bytes(4, "big"), b"\x12\x34\x56\x78", b"\x9a\xbc\xde\xf0")]
+    bodies = [b"", enc_avp(*pool[1]), enc_avp(*pool[2]) + enc_avp(*pool[5])]
+
+    def wire(h, body):
+        return enc_hdr(h[0], (20 + len(body)).to_bytes(3, "big"), h[1], h[2], h[3], h[4], h[5]) + body
+    for k in (1, 2, 3):
+        for combo in itertools.product(range(3), repeat=2 * k):
+            nm += 1
+            parts = [wire(hdrs[combo[2 * i]], bodies[combo[2 * i + 1]]) for i in range(k)]
+            try:
+                ms = B.DiameterMessage.load(b"".join(parts))
+                ok = len(ms) == k and all(m.dump() == w for m, w in zip(ms, parts)) and all(
+                    (m.header.version, m.header.flags, m.header.command_code, m.header.application_id,
+                     m.header.hop_by_hop, m.header.end_to_end) == hdrs[combo[2 * i]] for i, m in enumerate(ms))
+            except BaseException as e:  # noqa
+                ok, ms = False, "raised " + type(e).__name__
+            if not ok:
+                bad_m.append((b"".join(parts).hex()[:160], str(ms)[:80]))
+    return [("load-is-the-inverse-of-the-reference-encoder", not bad, {"checked": n, "failing": bad[:5]}),
+            ("grouped-members-all-survive-in-order", not bad_g, {"checked": ng, "failing": bad_g[:5]}),
+            ("one-message-object-per-encoded-message-in-order", not bad_m, {"checked": nm, "failing": bad_m[:5]})]
 
 
-codec_small_inputs_c02.bounded = "streams of 1..3 generic AVPs of unregistered codes (data length <= 13); native"
+codec_small_inputs_c02.bounded = ("streams of 1..3 generic AVPs of unregistered codes (data length <= 13); Failed-AVP with <= 3 members "
+                                  "(byte-identical ones included, one nesting level); streams of 1..3 messages; native")
 
 
 @table("malformed-small-inputs", prop="C03")
